@@ -622,15 +622,12 @@ func (r *inputs) buildEvalOpts(specs []EOpt, entryOverride *time.Time) ([]fhirpa
 				return nil, false, fmt.Errorf("bad var index %d", s.Var)
 			}
 			if r.evalOptCache != nil {
-				// the same option value for several Evaluate calls (see compileOptCache)
-				key := fmt.Sprintf("%s|%d", s.Name, s.Var)
-				o, ok := r.evalOptCache[key]
-				if !ok {
-					o = evalopts.EnvVariable(s.Name, r.vars[s.Var])
-					r.evalOptCache[key] = o
+				// the same option value for several Evaluate calls (see compileOptCache); the cache is
+				// filled by the root before the clients start (prepareEvalOpts) and only read here
+				if o, ok := r.evalOptCache[fmt.Sprintf("%s|%d", s.Name, s.Var)]; ok {
+					out = append(out, o)
+					continue
 				}
-				out = append(out, o)
-				continue
 			}
 			out = append(out, evalopts.EnvVariable(s.Name, r.vars[s.Var]))
 		case "time":
@@ -650,6 +647,22 @@ func (r *inputs) buildEvalOpts(specs []EOpt, entryOverride *time.Time) ([]fhirpa
 		out = append(out, evalopts.OverrideTime(*entryOverride))
 	}
 	return out, hasTime, nil
+}
+
+// prepareEvalOpts builds, once, the option values that the operations of a run will share.
+func (r *inputs) prepareEvalOpts(lists ...[]EOpt) {
+	r.evalOptCache = map[string]fhirpath.EvaluateOption{}
+	for _, l := range lists {
+		for _, s := range l {
+			if s.Kind != "var" || s.Var < 0 || s.Var >= len(r.vars) {
+				continue
+			}
+			key := fmt.Sprintf("%s|%d", s.Name, s.Var)
+			if _, ok := r.evalOptCache[key]; !ok {
+				r.evalOptCache[key] = evalopts.EnvVariable(s.Name, r.vars[s.Var])
+			}
+		}
+	}
 }
 
 // ---------------------------------------------------------------------------
